@@ -345,6 +345,12 @@ func fillAll(r io.Reader, c []byte) (n int, err error) {
 	return k + m, err
 }
 
+// SIGNBOUND control: the sign is folded in before the bound test
+func drawSigned(v, bound *big.Int, sign int64) bool {
+	v.Mul(v, big.NewInt(2*sign-1))
+	return v.Cmp(bound) < 1
+}
+
 // DEGLOOP control: the last component is never negated
 func (e fixEvaluator) NegHigh(op0, opOut *rlwe.Ciphertext) {
 	for i := 1; i < op0.Degree(); i++ {
